@@ -235,6 +235,7 @@ class _NumericOperationsImpl(OperationsBlock):
 
     @validate_core
     def logaddexp(self, x, y):
+        x, y = promote(x, y)
         return self.log(self.exp(x) + self.exp(y))
 
     @validate_core
